@@ -332,7 +332,7 @@ func run(sc Scenario, fault *hio.Fault, localCloseAt int) runResult {
 	return res
 }
 
-var faultKinds = []string{hio.FaultReadError, hio.FaultReadEOF, hio.FaultReadPartial, hio.FaultWriteError, hio.FaultWritePartial, hio.FaultPeerClose}
+var faultKinds = []string{hio.FaultReadError, hio.FaultReadEOF, hio.FaultReadPartial, hio.FaultWriteError, hio.FaultWritePartial, hio.FaultPeerClose, hio.FaultGarbage, hio.FaultHalfClose}
 
 func checkCase(c Case) error {
 	sc := c.Scenario
